@@ -5,7 +5,7 @@
 //! oracles on the implementation: find_all = combined per rule = per-node match in document order;
 //! non-reentrant visit = outermost matches; CLI `run`/`scan` = library search.
 use super::matching::{env_json, register_tree, STRICT};
-use super::rules::{gen_core, harvest, small_sources};
+use super::rules::{fixed_specs, gen_core, harvest, small_sources};
 use super::Ctx;
 use crate::ruledump::{dump_core, Regexes};
 use crate::treedump::{self, Ids};
@@ -41,8 +41,25 @@ fn load_config(spec: &Value, id: &str, lang: SupportLang, with_fix: bool) -> Opt
   if with_fix {
     doc["fix"] = json!("FIXED");
   }
+  // `globals` is the harness's own key: global utility rule files of the project
+  let gl = doc.as_object_mut().and_then(|o| o.remove("globals"));
   let text = doc.to_string();
-  let globals = GlobalRules::default();
+  let mut globals = GlobalRules::default();
+  if let Some(Value::Array(gs)) = gl {
+    let mut utils = vec![];
+    for g in gs {
+      let mut g = g.clone();
+      g["language"] = json!(lang_name(lang));
+      match serde_yaml::from_str(&g.to_string()) {
+        Ok(u) => utils.push(u),
+        Err(_) => return None,
+      }
+    }
+    match ast_grep_config::DeserializeEnv::parse_global_utils(utils) {
+      Ok(reg) => globals = reg,
+      Err(_) => return None,
+    }
+  }
   let r = std::panic::catch_unwind(std::panic::AssertUnwindSafe(|| from_yaml_string::<SupportLang>(&text, &globals)));
   match r {
     Ok(Ok(mut v)) if v.len() == 1 => v.pop(),
@@ -73,6 +90,14 @@ pub fn scan_unit(ctx: &Ctx, rng: &mut Rng, o: &mut Out) {
       let want = 1 + rng.below(8);
       let mut configs: Vec<RuleConfig<SupportLang>> = vec![];
       let mut tries = 0;
+      if set == 0 {
+        // the deterministic shape-derived rules (shadowed utility ids, positional rules) first
+        for (i, spec) in fixed_specs(&root, &m).iter().enumerate() {
+          if let Some(c) = load_config(spec, &format!("f{i}"), src.lang, i % 3 == 0) {
+            configs.push(c);
+          }
+        }
+      }
       while configs.len() < want && tries < 60 {
         tries += 1;
         let share = rng.chance(1, 2);
